@@ -271,8 +271,13 @@ fn guarded<C: Check>(c: &C, cfg: &C::Cfg, steps: &[C::Step], stats: &mut Stats) 
 pub fn shrink<C: Check>(c: &C, prop: &str, cfg: &C::Cfg, mut steps: Vec<C::Step>, v: &Violation) -> (Vec<C::Step>, Violation) {
     let mut best = v.clone();
     let mut budget = 4000usize;
+    // wall-clock cap per signature (histories of the capacity scenarios take seconds each): when it is reached the best
+    // trace found so far is kept; the replay file holds whatever trace is reported, so replay is unaffected
+    let t0 = std::time::Instant::now();
+    let cap = std::time::Duration::from_secs(std::env::var("VERIF_SHRINK_SECS").ok().and_then(|x| x.parse().ok()).unwrap_or(45));
     let mut same = |st: &[C::Step], budget: &mut usize| -> Option<Violation> {
-        if *budget == 0 {
+        if *budget == 0 || t0.elapsed() > cap {
+            *budget = 0;
             return None;
         }
         *budget -= 1;
